@@ -4,6 +4,7 @@ import (
 	"bytes"
 	"fmt"
 	"sort"
+	"sync"
 	"time"
 
 	"github.com/pion/interceptor"
@@ -21,8 +22,9 @@ type c17Cfg struct {
 	Rate       int    `json:"rate"` // bits per second
 	IntervalMs int    `json:"interval_ms"`
 	Streams    int    `json:"streams"`
-	Writers    []int  `json:"writers"`  // writer -> stream
-	StallUs    int64  `json:"stall_us"` // the next writer stalls this long before it reads the packet (0: yields only)
+	Writers    []int  `json:"writers"`            // writer -> stream
+	StallUs    int64  `json:"stall_us"`           // the next writer stalls this long before it reads the packet (0: yields only)
+	LateAdd    bool   `json:"late_add,omitempty"` // leaky bucket pacer: the last stream is added only when its first packet is about to be written
 }
 
 type c17Op struct {
@@ -32,6 +34,7 @@ type c17Op struct {
 	HS   int64  `json:"hs,omitempty"`
 	Len  int    `json:"len,omitempty"`
 	Rate int    `json:"rate,omitempty"`
+	WErr bool   `json:"werr,omitempty"` // the next writer fails for this packet (after it has seen it)
 }
 
 type c17 struct{}
@@ -49,6 +52,8 @@ func (c17) Gen(seed int64, tier string, avoid []string) *Plan {
 	cfg := c17Cfg{Mode: pick(r, "pacing", "pacing", "pacing", "leaky", "leaky", "noop"), IntervalMs: pick(r, 1, 2, 5, 5, 10, 20), Streams: pick(r, 1, 2, 3)}
 	cfg.Rate = pick(r, 100_000, 500_000, 1_000_000, 2_000_000, 8_000_000, 50_000_000)
 	cfg.StallUs = int64(pick(r, 0, 0, 200, 2000))
+	cfg.LateAdd = cfg.Mode == "leaky" && cfg.Streams > 1 && chance(r, 500)
+	errP := pick(r, 0, 0, 30, 150)
 	nw := cfg.Streams + r.Intn(2)
 	for w := 0; w < nw; w++ {
 		cfg.Writers = append(cfg.Writers, w%cfg.Streams)
@@ -68,7 +73,7 @@ func (c17) Gen(seed int64, tier string, avoid []string) *Plan {
 		if avoidSet["c17-packet-larger-than-burst"] && l > 1200 {
 			l = 1200
 		}
-		ops = append(ops, c17Op{K: "w", W: r.Intn(nw), AtUs: at, HS: r.Int63(), Len: l})
+		ops = append(ops, c17Op{K: "w", W: r.Intn(nw), AtUs: at, HS: r.Int63(), Len: l, WErr: chance(r, errP)})
 		if cfg.Mode != "noop" && chance(r, 60) {
 			ops = append(ops, c17Op{K: "rate", AtUs: at + int64(r.Intn(3000)), Rate: pick(r, 100_000, 300_000, 1_000_000, 4_000_000, cfg.Rate)})
 		}
@@ -90,6 +95,7 @@ type c17Pkt struct {
 	delStep        int
 	delAt          time.Duration
 	intact         bool
+	werr           bool
 }
 
 type c17Rate struct {
@@ -124,6 +130,10 @@ func (c17) Run(e *Env) {
 			hc := h.Clone()
 			same := hdrDiff(&p.hdr, &hc, 0) == "" && bytes.Equal(p.payload, pl) && p.hdr.Padding == hc.Padding
 			c17Deliver(e, p, s, same, &order[s], &globalOrder)
+			if p.werr {
+				e.Fault("writer_err")
+				return 0, errInjected
+			}
 			return hc.MarshalSize() + len(pl), nil
 		})
 	}
@@ -131,6 +141,7 @@ func (c17) Run(e *Env) {
 	var write func(s int, h *rtp.Header, pl []byte, a interceptor.Attributes) (int, error)
 	var setRate func(r int)
 	var closeFn func()
+	var lateAdd func()
 	switch cfg.Mode {
 	case "pacing":
 		f := pacing.NewInterceptor(pacing.InitialRate(cfg.Rate), pacing.Interval(interval), pacing.WithLoggerFactory(nopLoggerFactory{}))
@@ -151,6 +162,16 @@ func (c17) Run(e *Env) {
 	case "leaky":
 		pc := gcc.NewLeakyBucketPacer(cfg.Rate)
 		for s := 0; s < cfg.Streams; s++ {
+			if cfg.LateAdd && s == cfg.Streams-1 {
+				var once sync.Once
+				lateAdd = func() {
+					once.Do(func() {
+						e.Fault("stream_added_while_pacing")
+						pc.AddStream(uint32(600+s), next[s])
+					})
+				}
+				continue
+			}
 			pc.AddStream(uint32(600+s), next[s])
 		}
 		write = func(s int, h *rtp.Header, pl []byte, a interceptor.Attributes) (int, error) {
@@ -185,7 +206,10 @@ func (c17) Run(e *Env) {
 				simrt.SleepUntil(us(o.AtUs))
 				*h = hdrFromSeed(o.HS, uint32(600+s), 96, uint16(i), uint32(i)*3000, 0).Clone()
 				buf = append(buf[:0], payloadFromSeed(o.HS, o.Len)...)
-				p := &c17Pkt{stream: s, writer: w, hdr: h.Clone(), payload: append([]byte{}, buf...)}
+				p := &c17Pkt{stream: s, writer: w, hdr: h.Clone(), payload: append([]byte{}, buf...), werr: o.WErr}
+				if i == 0 && lateAdd != nil && s == cfg.Streams-1 {
+					lateAdd()
+				}
 				p.bits = 8 * (p.hdr.MarshalSize() + len(buf))
 				c17Enter(e, &pkts, p)
 				_, err := write(s, h, buf, interceptor.Attributes{"pkt": p})
